@@ -130,7 +130,9 @@ def run_e2e(ctx):
     cases = []
     n = 24 if ctx.tier == 'quick' else 300
     for k in range(n):
-        d = discs.gen_disc(r, max_files=r.choice([None, 5, 12]))
+        forced = {0: dict(opus_nvol=3, opus_style='gap-after-a', opus_reorder=False), 1: dict(opus_nvol=3, opus_style='contiguous', opus_reorder=True),
+                  2: dict(opus_nvol=2, opus_style='gap', opus_reorder=True)}.get(k)
+        d = discs.gen_disc(r, variant='opus', max_files=5, **forced) if forced else discs.gen_disc(r, max_files=r.choice([None, 5, 12]))
         # titles exercising 12 characters, NUL termination, top bits, trailing spaces
         for (label, origin, vlen, cats) in d.volumes():
             t = bytearray([b'', b'ABCDEFGHIJKL', b'TITLE   ', b'EIGHTCHR', b'NINE CHRS', b'A', b'end  sp  ', b'ELITE   DISC', b'GAMES 1 SIDE', b'ABCDEFG HIJK', b'AB      TAIL', b'SEVENCH HI  ', b'A       B'][k % 13])
